@@ -1249,3 +1249,14 @@ def EagerConfluenceGoal : Prop :=
         (run ops (compileW ops w) x).trace.flatten.Perm (runEager ops (compileW ops w) pick x).submitted
 
 end EinoV.Engine
+
+namespace EinoV.Engine
+
+theorem foldl_add_perm (l l' : List Nat) (h : l.Perm l') (z : Nat) : l.foldl (· + ·) z = l'.foldl (· + ·) z := by
+  induction h generalizing z with
+  | nil => rfl
+  | cons x _ ih => simp only [List.foldl_cons]; exact ih _
+  | swap x y l => simp only [List.foldl_cons]; congr 1; omega
+  | trans _ _ ih1 ih2 => exact (ih1 z).trans (ih2 z)
+
+end EinoV.Engine
